@@ -26,22 +26,27 @@ func NewDelegateListener(delegateListener core.Listener) *DelegateListener {
 // happens.
 func (l *DelegateListener) OnDropped() {
 	l.delegateListener.OnDropped()
-	// unblock
-	l.c.Broadcast()
+	l.unblock()
 }
 
 // OnIgnore is called to indicate the operation failed before any meaningful RTT measurement could be made and
 // should be ignored to not introduce an artificially low RTT.
 func (l *DelegateListener) OnIgnore() {
 	l.delegateListener.OnIgnore()
-	// unblock
-	l.c.Broadcast()
+	l.unblock()
 }
 
 // OnSuccess is called as a notification that the operation succeeded and internally measured latency should be
 // used as an RTT sample.
 func (l *DelegateListener) OnSuccess() {
 	l.delegateListener.OnSuccess()
-	// unblock
+	l.unblock()
+}
+
+// unblock wakes the blocked callers. The broadcast is made under the condition's lock so that a caller
+// that is registering itself (see armSignal) either is registered already or will see the released token.
+func (l *DelegateListener) unblock() {
+	l.c.L.Lock()
 	l.c.Broadcast()
+	l.c.L.Unlock()
 }
